@@ -5,6 +5,7 @@
    level far enough to explain the two defects found there.  The byte stream is abstracted to tokens:
             <<"rpc", i>>   the echo of the client's own request i up to and including "</rpc>"
             <<"eend", i>>  the framing delimiter that ends the echo of request i
+            <<"pre", i>>   what precedes the head of server message i on the wire (1.1: the chunk header line, 1.0: the XML declaration)
             <<"hdr", i>>   the head of server message i (carries message-id i)
             <<"body", i>>  further bytes of message i
             <<"dl", i>>    a DATA line of message i that consists of "##" only (legal chunk data under NETCONF 1.1)
@@ -25,12 +26,14 @@
      Loop = "v0"                             : NoLoss violated (the defect 4a07be4 repaired: echo + late reply in one read)
      DataLines = TRUE                        : OwnReply violated (known finding C02:driver:1.1:data-line-starts-with-##) *)
 EXTENDS Naturals, Sequences, FiniteSets, TLC
-CONSTANTS Loop, DataLines, Echo, N, Policies, PromptEcho, Notifs
+CONSTANTS Loop, DataLines, Echo, N, Policies, PromptEcho, Notifs, Pre
 VARIABLES stream, b, store, next, call, pol, got, owed, asked, nn
 vars == <<stream, b, store, next, call, pol, got, owed, asked, nn>>
 
-M(i) == IF DataLines THEN << <<"hdr", i>>, <<"dl", i>>, <<"body", i>>, <<"end", i>> >>
-                     ELSE << <<"hdr", i>>, <<"body", i>>, <<"end", i>> >>
+\* Pre: the wire form of a message is modelled with its framing prefix as a token of its own (finer cuts, larger state space)
+M(i) == (IF Pre THEN << <<"pre", i>> >> ELSE <<>>) \o
+        (IF DataLines THEN << <<"hdr", i>>, <<"dl", i>>, <<"body", i>>, <<"end", i>> >>
+                      ELSE << <<"hdr", i>>, <<"body", i>>, <<"end", i>> >>)
 E(i) == << <<"rpc", i>>, <<"eend", i>> >>
 \* notification k of the (single) subscription: no message-id, a subscription-id in its head; numbered 20 + k as a server message
 NM(k) == << <<"nhdr", 20 + k>>, <<"nbody", 20 + k>>, <<"nend", 20 + k>> >>
@@ -44,7 +47,7 @@ FirstDelim(s) == CHOOSE k \in 1..Len(s) : Looks(s[k]) /\ \A j \in 1..(k-1) : ~Lo
 FirstId(s) == IF \E k \in 1..Len(s) : s[k][1] = "hdr"
               THEN s[CHOOSE k \in 1..Len(s) : s[k][1] = "hdr" /\ \A j \in 1..(k-1) : s[j][1] # "hdr"][2] ELSE 0
 HasNotif(s) == \E k \in 1..Len(s) : s[k][1] = "nhdr"
-ServerMsgs(s) == {s[k][2] : k \in {j \in 1..Len(s) : s[j][1] \in {"hdr", "body", "dl", "end", "nhdr", "nbody", "nend"}}}
+ServerMsgs(s) == {s[k][2] : k \in {j \in 1..Len(s) : s[j][1] \in {"pre", "hdr", "body", "dl", "end", "nhdr", "nbody", "nend"}}}
 OkRead(s) == Cardinality(ServerMsgs(s)) <= 1
 
 \* the filing branch; returns <<buffer, store>>.  store[i], i > 0: the message filed under message-id i; store[0]: the
